@@ -685,6 +685,13 @@ def check_history(M, calls: list, opset: int, tables: dict, stats: Counter) -> l
         dd = c15_cmp.canon_equal(cur, Q)
         if not dd and c15_api._bytes(cur) == c15_api._bytes(Q):
             stats["history_chain_byte_equal"] += 1
+        # `Extensional` holds only up to AUTO-GENERATED node names: the counter behind `node_<Op>_<n>` lives in the in-memory
+        # ir.Model (IR chain: one object, counter goes on) and does not serialise (proto chain: restarts after each call)
+        auto = [d for d in dd if d[1] == "changed" and re.search(r"\.node\[\d+\]\.name$", d[0])
+                and re.fullmatch(r"'node_\w+_\d+' -> 'node_\w+_\d+'", d[2])]
+        if auto:
+            stats["history_chain_differs_in_autogenerated_node_names"] += 1
+            dd = [d for d in dd if d not in auto]
         for d in dd[:4]:
             fid = "C15-TMETA" if pred_tmeta(d) else "C15-SPARSE" if pred_sparse(d) else None
             problems.append(("tie", fid, f"history {names}: proto chain result != ser(IR chain result): {d}"))
